@@ -40,20 +40,50 @@ package immutable
 //@ func collisionWF[K, V any](n *mapHashCollisionNode[K, V], h fp.Hashable[K]) bool {
 //@ 	return len(n.entries) >= 2 && entriesWF(n.entries, h) && (forall i int :: 0 <= i && i < len(n.entries) ==> h.Hash(n.entries[i].key) == n.keyHash)
 //@ }
-//@ func bitmapWF[K, V any](n *mapBitmapIndexedNode[K, V], shift uint, h fp.Hashable[K]) bool {
-//@ 	return shift <= 30 && len(n.nodes) >= 1 && len(n.nodes) == bits.OnesCount32(n.bitmap) && (forall i int :: 0 <= i && i < len(n.nodes) ==> n.nodes[i] != nil && Rec_nodeWF(n.nodes[i], shift+mapNodeBits, h)) && (forall i int, k K :: 0 <= i && i < len(n.nodes) && nodeGet(n.nodes[i], k, shift+mapNodeBits, h).IsDefined() ==> n.bitmap&(uint32(1)<<frag(h.Hash(k), shift)) != 0 && bits.OnesCount32(n.bitmap&((uint32(1)<<frag(h.Hash(k), shift))-1)) == i)
+//@ func Rec_childOK[K, V any](c mapNode[K, V], j uint32, shift uint, h fp.Hashable[K]) bool {
+//@ 	return c != nil && Rec_nodeWF(c, shift+mapNodeBits, h) && (forall k K :: nodeGet(c, k, shift+mapNodeBits, h).IsDefined() ==> frag(h.Hash(k), shift) == j)
 //@ }
-//@ func b2u(b bool) uint {
+//@ func bitSlotWF[K, V any](n *mapBitmapIndexedNode[K, V], j uint, shift uint, h fp.Hashable[K]) bool {
+//@ 	return n.bitmap&(uint32(1)<<j) != 0 ==> n.nodes[bits.OnesCount32(n.bitmap&((uint32(1)<<j)-1))] != nil && Rec_childOK(n.nodes[bits.OnesCount32(n.bitmap&((uint32(1)<<j)-1))], uint32(j), shift, h)
+//@ }
+//@ func bitRank[K, V any](n *mapBitmapIndexedNode[K, V], j uint) int {
+//@ 	return bits.OnesCount32(n.bitmap & ((uint32(1) << j) - 1))
+//@ }
+//@ func bitGetSpec[K, V any](n *mapBitmapIndexedNode[K, V], j uint, k K, shift uint, h fp.Hashable[K]) bool {
+//@ 	return (n.bitmap&(uint32(1)<<j) == 0 ==> !nodeGet(mapNode[K, V](n), k, shift, h).IsDefined()) && (n.bitmap&(uint32(1)<<j) != 0 && bitRank(n, j) < len(n.nodes) && n.nodes[bitRank(n, j)] != nil ==> Eq(nodeGet(mapNode[K, V](n), k, shift, h), nodeGet(n.nodes[bitRank(n, j)], k, shift+mapNodeBits, h)))
+//@ }
+//@ func bitmapGetByBit[K, V any](n *mapBitmapIndexedNode[K, V], shift uint, h fp.Hashable[K]) bool {
+//@ 	return <<j=0..31| && |(forall k K :: frag(h.Hash(k), shift) == $j ==> bitGetSpec(n, $j, k, shift, h))>>
+//@ }
+//@ func setViewSpec[K, V any](n mapNode[K, V], res mapNode[K, V], key K, value V, k K, shift uint, h fp.Hashable[K]) bool {
+//@ 	return (h.Eqv(k, key) ==> Eq(nodeGet(res, k, shift, h), fp.Some(value))) && (!h.Eqv(k, key) ==> Eq(nodeGet(res, k, shift, h), nodeGet(n, k, shift, h)))
+//@ }
+//@ func delViewSpec[K, V any](n mapNode[K, V], res mapNode[K, V], key K, k K, shift uint, h fp.Hashable[K]) bool {
+//@ 	return (h.Eqv(k, key) ==> !nodeGet(res, k, shift, h).IsDefined()) && (!h.Eqv(k, key) ==> Eq(nodeGet(res, k, shift, h), nodeGet(n, k, shift, h)))
+//@ }
+//@ func bitmapWF[K, V any](n *mapBitmapIndexedNode[K, V], shift uint, h fp.Hashable[K]) bool {
+//@ 	return shift <= 30 && len(n.nodes) == bits.OnesCount32(n.bitmap) && <<j=0..31| && |bitSlotWF(n, $j, shift, h)>>
+//@ }
+//@ func slotWF[K, V any](n *mapHashArrayNode[K, V], i int, shift uint, h fp.Hashable[K]) bool {
+//@ 	return n.nodes[i] != nil ==> Rec_childOK(n.nodes[i], uint32(i), shift, h)
+//@ }
+//@ func b2w(b bool) uint32 {
 //@ 	if b {
 //@ 		return 1
 //@ 	}
 //@ 	return 0
 //@ }
-//@ func slotWF[K, V any](n *mapHashArrayNode[K, V], i int, shift uint, h fp.Hashable[K]) bool {
-//@ 	return n.nodes[i] != nil ==> Rec_nodeWF(n.nodes[i], shift+mapNodeBits, h) && (forall k K :: nodeGet(n.nodes[i], k, shift+mapNodeBits, h).IsDefined() ==> frag(h.Hash(k), shift) == uint32(i))
+//@ func occ[K, V any](n *mapHashArrayNode[K, V]) uint32 {
+//@ 	return <<j=0..31| ^ |b2w(n.nodes[$j] != nil)<<$j>>
+//@ }
+//@ func hashArrayCount[K, V any](n *mapHashArrayNode[K, V]) bool {
+//@ 	return n.count >= 16 && n.count <= 32 && int(uint8(n.count)) == bits.OnesCount32(occ(n))
+//@ }
+//@ func hashArraySlots[K, V any](n *mapHashArrayNode[K, V], shift uint, h fp.Hashable[K]) bool {
+//@ 	return <<i=0..31| && |slotWF(n, $i, shift, h)>>
 //@ }
 //@ func hashArrayWF[K, V any](n *mapHashArrayNode[K, V], shift uint, h fp.Hashable[K]) bool {
-//@ 	return shift <= 30 && n.count == <<i=0..31| + |b2u(n.nodes[$i] != nil)>> && <<i=0..31| && |slotWF(n, $i, shift, h)>>
+//@ 	return shift <= 30 && hashArrayCount(n) && hashArraySlots(n, shift, h)
 //@ }
 //@ func Rec_nodeWF[K, V any](n mapNode[K, V], shift uint, h fp.Hashable[K]) bool {
 //@ 	switch n := n.(type) {
@@ -62,7 +92,7 @@ package immutable
 //@ 	case *mapHashCollisionNode[K, V]:
 //@ 		return n != nil && collisionWF(n, h)
 //@ 	case *mapArrayNode[K, V]:
-//@ 		return n != nil && arrayWF(n, h)
+//@ 		return n != nil && shift == 0 && arrayWF(n, h)
 //@ 	case *mapBitmapIndexedNode[K, V]:
 //@ 		return n != nil && bitmapWF(n, shift, h)
 //@ 	case *mapHashArrayNode[K, V]:
@@ -73,7 +103,7 @@ package immutable
 //@ end
 //
 // ---- interface contract: what a node knows about its children
-//@ include internal/verifspec/hamtnode.contracts HEAD=iface·mapNode. OPTS=option·frame=on
+//@ include internal/verifspec/hamtnode.contracts HEAD=iface·mapNode. OPTS=option·frame=on DOPTS=option·note=none
 //
 // ---- leaves
 // leafWF(l, h): what every leaf (value node, collision node) guarantees about its own lookups:
@@ -85,27 +115,30 @@ package immutable
 //@ end
 //
 //@ func mergeIntoNode(node, shift, keyHash, key, value) result
-//@   prop C03
+//@   prop C03 C04
+//@   ghostparam h fp.Hashable[K]
 //@   option summary
 //@   option assumerec=mergeIntoNode
 //@   option timeout=60
 //@   requires node != nil && node.keyHashValue() != keyHash && shift <= 30 && shift%5 == 0
 //@   requires (node.keyHashValue() >> shift) != (keyHash >> shift)
+//@   requires veriflaws.HashLaws(h) && leafWF(node, h) && keyHash == h.Hash(key) && (forall s uint :: Rec_nodeWF(mapNode[K, V](node), s, h))
 //@   ensures result != nil
-//@   ensures forall h fp.Hashable[K], k K :: veriflaws.HashLaws(h) && leafWF(node, h) && keyHash == h.Hash(key) && h.Eqv(k, key) ==> Eq(nodeGet(result, k, shift, h), fp.Some(value))
+//@   ensures forall k K :: h.Eqv(k, key) ==> Eq(nodeGet(result, k, shift, h), fp.Some(value))
 //@   tag newKey
-//@   ensures forall h fp.Hashable[K], k K :: veriflaws.HashLaws(h) && leafWF(node, h) && keyHash == h.Hash(key) && !h.Eqv(k, key) ==> Eq(nodeGet(result, k, shift, h), nodeGet(mapNode[K, V](node), k, shift, h))
+//@   ensures forall k K :: !h.Eqv(k, key) ==> Eq(nodeGet(result, k, shift, h), nodeGet(mapNode[K, V](node), k, shift, h))
 //@   tag otherKeys
-//@   ensures forall h fp.Hashable[K] :: veriflaws.HashLaws(h) && leafWF(node, h) && keyHash == h.Hash(key) && (forall s uint :: Rec_nodeWF(mapNode[K, V](node), s, h)) ==> Rec_nodeWF(result, shift, h)
+//@   ensures Rec_nodeWF(result, shift, h)
 //@   tag wellFormed
 //@   ensures Unchanged()
 //@   tag persistent
+//@   ghost before "return other" :: { h := verifspec.Ghost[fp.Hashable[K]]("h"); verifspec.Reveal(Rec_childOK(mapNode[K, V](node), idx1, shift, h)); verifspec.Reveal(Rec_childOK(other.nodes[0], idx1, shift, h)) }
 //
-//@ include internal/verifspec/hamtnode.contracts HEAD=func·(*mapValueNode). OPTS=option·assume=mergeIntoNode
+//@ include internal/verifspec/hamtnode.contracts HEAD=func·(*mapValueNode). OPTS=option·assume=mergeIntoNode,get,indexOf DOPTS=option·note=none
 //
 // ---- array node (root only): entries searched linearly, first match wins
 //@ func (*mapArrayNode).indexOf(n, key, h) result
-//@   prop C03
+//@   prop C03 C04
 //@   option summary
 //@   requires n != nil
 //@   ensures (result == -1 && (forall j int :: 0 <= j && j < len(n.entries) ==> !h.Eqv(n.entries[j].key, key))) || (0 <= result && result < len(n.entries) && h.Eqv(n.entries[result].key, key) && (forall j int :: 0 <= j && j < result ==> !h.Eqv(n.entries[j].key, key)))
@@ -113,7 +146,7 @@ package immutable
 //@   loop 0 invariant 0 <= i && i < len(n.entries) && (forall j int :: 0 <= j && j < i ==> !h.Eqv(n.entries[j].key, key))
 //@   loop 0 decreases len(n.entries) - i
 //
-//@ include internal/verifspec/hamtnode.contracts HEAD=func·(*mapArrayNode). OPTS=option·assume=indexOf,mergeIntoNode
+//@ include internal/verifspec/hamtnode.contracts HEAD=func·(*mapArrayNode). OPTS=option·assume=indexOf,mergeIntoNode DOPTS=option·note=none
 //
 //@ func (*mapArrayNode).set(n, key, value, shift, keyHash, h, mutable, resized) result
 //@   loop 0 invariant 0 <= idx_ && idx_ < len(n.entries) && node != nil && *resized && Rec_nodeWF(node, 0, h)
@@ -121,3 +154,130 @@ package immutable
 //@   loop 0 invariant forall k K, j int :: 0 <= j && j < idx_ && h.Eqv(n.entries[j].key, k) ==> Eq(nodeGet(node, k, 0, h), fp.Some(n.entries[j].value))
 //@   loop 0 invariant forall k K :: !h.Eqv(k, key) && (forall j int :: 0 <= j && j < idx_ ==> !h.Eqv(n.entries[j].key, k)) ==> !nodeGet(node, k, 0, h).IsDefined()
 //@   loop 0 decreases len(n.entries) - idx_
+//
+// ---- collision node (leaf): two or more entries with one 32-bit hash
+//@ ghost
+//@ func collisionGet[K, V any](n *mapHashCollisionNode[K, V], key K, h fp.Hashable[K]) fp.Option[V] {
+//@ 	i := n.indexOf(key, h)
+//@ 	if i == -1 {
+//@ 		return fp.None[V]()
+//@ 	}
+//@ 	return fp.Some(n.entries[i].value)
+//@ }
+//@ end
+//@ func (*mapHashCollisionNode).indexOf(n, key, h) result
+//@   prop C03 C04
+//@   option summary
+//@   requires n != nil
+//@   ensures (result == -1 && (forall j int :: 0 <= j && j < len(n.entries) ==> !h.Eqv(n.entries[j].key, key))) || (0 <= result && result < len(n.entries) && h.Eqv(n.entries[result].key, key) && (forall j int :: 0 <= j && j < result ==> !h.Eqv(n.entries[j].key, key)))
+//@   tag firstMatch
+//@   loop 0 invariant 0 <= i && i < len(n.entries) && (forall j int :: 0 <= j && j < i ==> !h.Eqv(n.entries[j].key, key))
+//@   loop 0 decreases len(n.entries) - i
+//
+//@ func (*mapHashCollisionNode).get(n, key, shift, keyHash, h) result
+//@   prop C03 C04
+//@   option summary
+//@   option assume=indexOf
+//@   requires n != nil
+//@   ensures Eq(result, collisionGet(n, key, h))
+//@   tag firstMatch
+//@   loop 0 invariant 0 <= i && i < len(n.entries) && (forall j int :: 0 <= j && j < i ==> !h.Eqv(n.entries[j].key, key))
+//@   loop 0 decreases len(n.entries) - i
+//
+//@ include internal/verifspec/hamtnode.contracts HEAD=func·(*mapHashCollisionNode). OPTS=option·assume=indexOf,get,mergeIntoNode DOPTS=option·note=none
+//
+// ---- hash array node (branch): 32 slots indexed by the hash fragment
+//@ include internal/verifspec/hamtnode.contracts HEAD=func·(*mapHashArrayNode). OPTS=option·timeout=120 DOPTS=option·tier=thorough
+//@ func (*mapHashArrayNode).set(n, key, value, shift, keyHash, h, mutable, resized) result
+//@   ghost before "newNode = node.set(" :: verifspec.Reveal(Rec_childOK(node, idx, shift, h))
+//@   ghost before "return other" :: verifspec.Reveal(Rec_childOK(newNode, idx, shift, h))
+//@ func (*mapHashArrayNode).delete(n, key, shift, keyHash, h, mutable, resized) result
+//@   ghost before "newNode := node.delete(" :: verifspec.Reveal(Rec_childOK(node, idx, shift, h))
+//@   ghost after "newNode := node.delete(key, shift+mapNodeBits, keyHash, h, mutable, resized)" :: verifspec.Reveal(Rec_childOK(newNode, idx, shift, h))
+//@   loop 0 invariant 0 <= i && i < 32 && Fresh(other) && Fresh(other.nodes) && other.bitmap>>uint(i) == 0 && len(other.nodes) == bits.OnesCount32(other.bitmap)
+//@   loop 0 invariant <<j=0..31| && |($j >= i || (other.bitmap&(1<<$j) != 0) == (n.nodes[$j] != nil && uint32($j) != idx))>>
+//@   loop 0 invariant <<j=0..31| && |($j >= i || other.bitmap&(1<<$j) == 0 || other.nodes[bits.OnesCount32(other.bitmap&((1<<$j)-1))] == n.nodes[$j])>>
+//@   loop 0 decreases 32 - i
+//@   ghost before "return other" :: verifspec.AssertPure(bitmapGetByBit(other, shift, h))
+//@   ghost before "return other" :: verifspec.Assert(len(other.nodes) == bits.OnesCount32(other.bitmap) && <<j=0..31| && |(other.bitmap&(1<<$j) != 0) == (n.nodes[$j] != nil && uint32($j) != idx)>> && <<j=0..31| && |(other.bitmap&(1<<$j) == 0 || other.nodes[bits.OnesCount32(other.bitmap&((1<<$j)-1))] == n.nodes[$j])>>)
+//
+// ---- bitmap indexed node (branch): children packed in bit order, child of bit j at popcount(bitmap & (bit_j - 1))
+// NOT PROVED: the items below are attempted only with `-tier manual`.  The loop invariants of the conversion to a
+// hash-array node, the ghost assertions and most clauses discharge; the clauses that relate lookups in the node
+// built by insertion (two copies around the new child) to lookups in the old node time out in all three solvers
+// (32-way case split on the hash fragment combined with population-count circuits).  Children of every node kind
+// are used through the interface contract of mapNode only, so what remains unproved is exactly: "the bitmap node
+// implements that contract".
+//@ include internal/verifspec/hamtnode.contracts HEAD=func·(*mapBitmapIndexedNode). OPTS=option·tier=manual DOPTS=option·timeout=120
+//@ func (*mapBitmapIndexedNode).set(n, key, value, shift, keyHash, h, mutable, resized) result
+//@   option tier=manual
+//@   ghost before "keyHashFrag := " :: verifspec.AssertPure(bitmapGetByBit(n, shift, h))
+//@   ghost before "newNode = n.nodes[idx].set" :: verifspec.Assert(<<j=0..31| && |(keyHashFrag != $j || Rec_childOK(n.nodes[idx], $j, shift, h))>>); verifspec.Reveal(Rec_childOK(n.nodes[idx], keyHashFrag, shift, h))
+//@   ghost after "newNode = n.nodes[idx].set(key, value, shift+mapNodeBits, keyHash, h, mutable, resized)" :: verifspec.Assert((forall k K :: nodeGet(newNode, k, shift+mapNodeBits, h).IsDefined() ==> frag(h.Hash(k), shift) == keyHashFrag))
+//@   ghost before "// Convert to a hash-array node" :: verifspec.Reveal(Rec_childOK(newNode, keyHashFrag, shift, h)); verifspec.Assert(Rec_childOK(newNode, keyHashFrag, shift, h))
+//@   loop 0 invariant i < 32 && other.count <= 32 && int(uint8(other.count)) == bits.OnesCount32(n.bitmap&((uint32(1)<<i)-1))
+//@   loop 0 invariant <<j=0..31| && |(uint($j) < i || other.nodes[$j] == nil)>>
+//@   loop 0 invariant <<j=0..31| && |(uint($j) >= i || (n.bitmap&(1<<$j) != 0 || other.nodes[$j] == nil) && (n.bitmap&(1<<$j) == 0 || other.nodes[$j] == n.nodes[bits.OnesCount32(n.bitmap&((1<<$j)-1))]))>>
+//@   loop 0 decreases 32 - int(i)
+//@   ghost before "other.nodes[keyHashFrag] = newNode" :: verifspec.Assert(other.count <= 32 && int(uint8(other.count)) == bits.OnesCount32(n.bitmap) && <<j=0..31| && |((n.bitmap&(1<<$j) != 0 || other.nodes[$j] == nil) && (n.bitmap&(1<<$j) == 0 || other.nodes[$j] == n.nodes[bits.OnesCount32(n.bitmap&((1<<$j)-1))]))>>)
+//@   ghost before "return other" :: verifspec.Assert(len(other.nodes) == bits.OnesCount32(other.bitmap) && <<j=0..31| && |(other.bitmap&(1<<$j) == 0 || bitRank(other, $j) < len(other.nodes))>> && <<j=0..31| && |(keyHashFrag != $j || other.nodes[bitRank(other, $j)] == newNode)>> && <<j=0..31| && |(n.bitmap&(1<<$j) == 0 || keyHashFrag == $j || other.nodes[bitRank(other, $j)] == n.nodes[bitRank(n, $j)])>>)
+//@   ghost before "return other" :: verifspec.AssertPure(bitmapGetByBit(other, shift, h))
+//
+// ---- the map object: root + size + hasher
+//@ ghost
+//@ func b2i(b bool) int {
+//@ 	if b {
+//@ 		return 1
+//@ 	}
+//@ 	return 0
+//@ }
+//@ func hamtWF[K, V any](m *hamt[K, V]) bool {
+//@ 	return m != nil && m.hasher != nil && veriflaws.HashLaws(m.hasher) && Rec_nodeWF(m.root, 0, m.hasher)
+//@ }
+//@ end
+//@ func (*hamt).Get(m, key) result
+//@   prop C03 C04
+//@   requires hamtWF(m)
+//@   ensures Eq(result, nodeGet(m.root, key, 0, m.hasher))
+//@   tag isRootLookup
+//
+//@ func (*hamt).set(m, key, value, mutable) result
+//@   prop C03 C04
+//@   option timeout=60
+//@   option assume=indexOf
+//@   requires hamtWF(m) && !mutable
+//@   ensures result != nil && result.hasher == m.hasher && hamtWF(result)
+//@   tag wellFormed
+//@   ensures forall k K :: m.hasher.Eqv(k, key) ==> Eq(result.Get(k), fp.Some(value))
+//@   tag writtenKeyReadsBack
+//@   ensures forall k K :: !m.hasher.Eqv(k, key) ==> Eq(result.Get(k), Old(m.Get(k)))
+//@   tag otherKeysUnchanged
+//@   ensures m.root != nil ==> result.size == OldInt(m.size)+b2i(!OldBool(m.Get(key).IsDefined()))
+//@   tag sizeCountsNewKey
+//@   ensures m.root == nil ==> result.size == 1
+//@   tag sizeOfFirstKey
+//@   ensures Unchanged() && Fresh(result)
+//@   tag persistent
+//
+//@ func (*hamt).delete(m, key, mutable) result
+//@   prop C03 C04
+//@   option timeout=60
+//@   requires hamtWF(m) && !mutable
+//@   ensures result != nil && result.hasher == m.hasher && hamtWF(result)
+//@   tag wellFormed
+//@   ensures forall k K :: m.hasher.Eqv(k, key) ==> !result.Get(k).IsDefined()
+//@   tag removedKeyIsGone
+//@   ensures forall k K :: !m.hasher.Eqv(k, key) ==> Eq(result.Get(k), Old(m.Get(k)))
+//@   tag otherKeysUnchanged
+//@   ensures result.size == OldInt(m.size)-b2i(OldBool(m.Get(key).IsDefined()))
+//@   tag sizeCountsRemovedKey
+//@   ensures !OldBool(m.Get(key).IsDefined()) ==> result == m
+//@   tag absentKeyReturnsSameMap
+//@   ensures Unchanged()
+//@   tag persistent
+//@ func (*mapBitmapIndexedNode).delete(n, key, shift, keyHash, h, mutable, resized) result
+//@   ghost before "bit := uint32(1)" :: verifspec.AssertPure(bitmapGetByBit(n, shift, h))
+//@   ghost before "newChild := child.delete" :: { fr := (keyHash >> shift) & mapNodeMask; verifspec.Assert(<<j=0..31| && |(fr != $j || Rec_childOK(child, $j, shift, h))>>); verifspec.Reveal(Rec_childOK(child, fr, shift, h)) }
+//@   ghost after "newChild := child.delete(key, shift+mapNodeBits, keyHash, h, mutable, resized)" :: verifspec.Reveal(Rec_childOK(newChild, (keyHash>>shift)&mapNodeMask, shift, h))
+//@   ghost before "return other" #0 :: verifspec.AssertPure(bitmapGetByBit(other, shift, h))
+//@   ghost before "return other" #1 :: verifspec.AssertPure(bitmapGetByBit(other, shift, h))
